@@ -137,9 +137,8 @@ def check(spec, ctx):
     role = "module" if spec["role"] == "M" else "vector"
     b = _record(role, g, spec["rec"])
     record = b.record()
-    from moclo._utils import isabstract
     cands = list(base.__subclasses__())
-    if not isabstract(base):
+    if kits.is_concrete(base):
         cands.append(base)
     accepting = []
     for c in cands:
@@ -150,9 +149,9 @@ def check(spec, ctx):
         if is_derived:
             M2, V2 = plasmid.generic_classes(c.cutter, fresh=True)
             G = M2 if kits.role_of(c) == "module" else V2
-            ok = oracle_accepts(c.signature, G(b.record()))
+            ok = sut(oracle_accepts, c.signature, G(b.record()))
         else:
-            ok = c(b.record()).is_valid()
+            ok = sut(c(b.record()).is_valid)
         if ok:
             accepting.append(c)
     try:
